@@ -408,24 +408,24 @@ def decide(pid, tier, seed, mod, agg, broken, verbose=True):
     if broken:
         lines.append(f"HARNESS-ERROR property={pid} {broken}")
         return lines, 2, 0, []
-    # group by class, keep earliest idx per class
+    # group by class, keep the earliest run per class; violations matching an open finding are only announced
     by_cls = {}
+    known_printed = set()
     for idx, enum, vv in sorted(agg["viols"], key=lambda t: (t[1], t[0])):
         for v in vv["violations"]:
-            key = (tuple(v["cls"]), tuple(sorted(v.get("features", []))))
+            fd = match_finding(findings, pid, v)
+            if fd is not None:
+                if fd["id"] not in known_printed:
+                    known_printed.add(fd["id"])
+                    lines.append(f"KNOWN-FINDING: property={pid} {fd['what']}")
+                continue
+            key = tuple(v["cls"])
             if key not in by_cls:
                 by_cls[key] = (idx, enum, v, vv["case"])
-    known_printed = set()
     details = []
     mod.setup()
     shrink_budget = float(os.environ.get("VERIF_SHRINK_S", 45))
     for key, (idx, enum, v, case) in list(by_cls.items())[:12]:
-        fd = match_finding(findings, pid, v)
-        if fd is not None:
-            if fd["id"] not in known_printed:
-                known_printed.add(fd["id"])
-                lines.append(f"KNOWN-FINDING: property={pid} {fd['what']}")
-            continue
         small, tried = shrink(mod, case, v["cls"], budget_s=shrink_budget)
         rsmall = run_one(mod, small)
         vsmall = next((x for x in rsmall["violations"] if tuple(x["cls"]) == tuple(v["cls"])), v)
